@@ -66,12 +66,15 @@ def main(run):
     thorough = run.tier == "thorough"
     run.proof_step(leancheck=thorough)
     run.cov["rule"] = (
-        "correspondence: prototype crystals (P/F/I/A/C/R settings, primitive matrix by centring or auto) x supercell "
+        "correspondence: prototype crystals (P/F/I/A/C/R settings; primitive matrix by centring symbol, auto, or explicit "
+        "centring-matrix x unimodular matrix) x supercell "
         "matrices (diagonal and non-diagonal, det<=6), dense or sparse svecs storage, force constants random "
         "(no symmetry, entries k/8) or pair-potential (any range), q random/commensurate/zone-boundary/outside/Gamma; "
         "DynamicalMatrix.run lang=C and Py, full and compact fc, OpenMP and serial library, and both loop forms of "
         "dym_get_dynamical_matrix_at_q called directly, against the Lean model fed with the implementation's own "
-        "p2s/s2p/s2pp/svecs/multi/masses and the exact cos/sin doubles; all 3np x 3np entries, tolerance 1e-9*scale. "
+        "p2s/s2p/s2pp/svecs/multi/masses and the exact cos/sin doubles; all 3np x 3np entries, tolerance 1e-9*scale; the "
+        "q-point batch run_dynamical_matrix_solver_c(dm, qpoints) against the model's flat output buffer; the frequency "
+        "formula against QpointsPhonon's stored eigenvalues. "
         "oracle: independent infinite-lattice Fourier sum of the same pair potential vs DynamicalMatrix.run and "
         "Phonopy.run_qpoints (matrix entries and eigenvalues recovered from the frequencies with the unit factor). "
         "Non-trivial = the oracle matrix is non-zero, and for the short-range clause the cutoff reaches at least the "
@@ -95,7 +98,7 @@ def main(run):
     run.cov["partial"] = []
 
     # ------------------------------------------------------------------ A. correspondence cases
-    ncorr = 150 if thorough else 30
+    ncorr = 240 if thorough else 40
     max_ns = 32 if thorough else 18
     names = U.CELLS_QUICK + (U.CELLS_MORE if thorough else [])
     cases = []
@@ -105,7 +108,7 @@ def main(run):
         mc = U.make_case(rng, names, max_ns)
         if mc is None:
             continue
-        name, cell, smat, pm = mc
+        name, cell, smat, pm, pmlabel = mc
         dense = rng.random() < 0.7
         try:
             ph = Phonopy(cell, supercell_matrix=smat, primitive_matrix=pm, log_level=0, store_dense_svecs=dense)
@@ -131,7 +134,7 @@ def main(run):
         qs = U.qpoints(rng, ph, n_random=1, n_comm=1, n_zb=0, n_out=0)
         extra = rng.choice(["zone-boundary", "outside-first-zone", "gamma"])
         qs = [x for x in qs if x[0] != "gamma"] + [x for x in U.qpoints(rng, ph, 0, 0, 1, 1) if x[0] == extra]
-        cases.append(dict(name=name, smat=smat, pm=pm, dense=dense, ph=ph, fc=fc, fcc=fcc, qs=qs, fckind=fckind,
+        cases.append(dict(name=name, smat=smat, pm=pmlabel, dense=dense, ph=ph, fc=fc, fcc=fcc, qs=qs, fckind=fckind,
                           cutoff=cutoff, ns=ns, np=npa))
 
     lines, meta = [], []
@@ -181,6 +184,14 @@ def main(run):
             run.count("corr fc=%s" % c["fckind"])
             run.count("corr svecs=%s" % ("dense" if c["dense"] else "sparse"))
             run.count("corr smat=%s" % ("diagonal" if (c["smat"] == np.diag(np.diag(c["smat"]))).all() else "non-diagonal"))
+        # the q-point batch (one call of the q-loop for all q of the case), full and compact layout
+        for layout, arr in (("full", c["fc"]), ("compact", c["fcc"])):
+            if c["ns"] * c["np"] > 40 and layout == "compact":
+                continue
+            phs = np.concatenate([U.c_phases(qq, T["svecs"]) for _, qq in c["qs"]])
+            ln = U.model_line("c", T, layout == "compact", phs, arr)
+            lines.append("batch %d %s" % (len(c["qs"]), ln[2:]))
+            meta.append(("batch", ci, layout, None, info))
         run.sample(dict(kind="correspondence", **info, q=[(k, list(map(float, v))) for k, v in c["qs"]]))
     run.cov["correspondence"]["table-hypotheses"] = nhyp
 
@@ -199,6 +210,10 @@ def main(run):
                         dm.run(qq, lang=lang)
                         impl[(lang, variant, ci, layout, tuple(qq))] = dm.dynamical_matrix.copy()
                     arr = c["fc"] if layout == "full" else c["fcc"]
+                    if (kind, tuple(qq)) == (c["qs"][0][0], tuple(c["qs"][0][1])):
+                        from phonopy.harmonic.dynamical_matrix import run_dynamical_matrix_solver_c
+                        impl[("batch", variant, ci, layout)] = np.array(run_dynamical_matrix_solver_c(
+                            dm, np.array([x[1] for x in c["qs"]], dtype="double")))
                     for uo in (0, 1):
                         impl[("K%d" % uo, variant, ci, layout, tuple(qq))] = U.kernel_direct(c["T"], layout == "compact", arr, qq, uo)
     common.switch_variant("omp")
@@ -233,6 +248,23 @@ def main(run):
                 run.broke("correspondence", "certificates (linkedOk, CTables.wf) = %s on the implementation's tables" % line, info)
                 run.violation("Primitive.atomic_permutations/get_nsym_list_and_s2pp", "tables-not-wellformed", "translation tables fail the certificate", info)
             continue
+        if kind == "batch":
+            toks = line.split()
+            if line == "bad-op" or len(toks) != len(c["qs"]) * (3 * c["np"]) ** 2 * 2:
+                run.broke("correspondence", "model rejected the batch request", info)
+                continue
+            from fractions import Fraction
+            v = np.array([float(Fraction(t)) for t in toks]).reshape(len(c["qs"]), 3 * c["np"], 3 * c["np"], 2)
+            model = v[..., 0] + 1j * v[..., 1]
+            floor = float(np.abs(c["fc"]).max()) / float(min(c["T"]["masses"]))
+            for variant in ("omp", "ser"):
+                ok, d, scale = _close(impl[("batch", variant, ci, layout)], model, floor)
+                ncmp += 1
+                run.count("batch/%s/%s" % (variant, layout), section="correspondence")
+                if not ok:
+                    run.broke("correspondence", "q-point batch (%s build, %s fc) differs from the model's buffer by %.3g (scale %.3g)"
+                              % (variant, layout, d, scale), info)
+            continue
         if kind == "denseadrs":
             run.count("dense-address-certificates", section="correspondence")
             want = " ".join(str(int(x)) for x in c["T"]["multi"][:, :, 1].ravel())
@@ -266,9 +298,15 @@ def main(run):
 
     # ------------------------------------------------------------------ B. the property itself on the implementation
     factor = float(units.VaspToTHz)
+    # the identity proved on the unit monomials (vaspToTHz_sq_monomial), numerically with the module's own constants
+    spec2 = units.EV / units.AMU / units.Angstrom ** 2 / (2 * np.pi) ** 2 / 1e24
+    if abs(factor ** 2 - spec2) > 1e-13 * spec2:
+        run.violation("phonopy.units.VaspToTHz", "unit-factor-identity", "VaspToTHz^2 = %r but EV/AMU/A^2/(2pi)^2/1e24 = %r" % (factor ** 2, spec2),
+                      dict(value=factor))
+    freq_lines, freq_meta = [], []
     if abs(factor - 15.633302) > 2e-6:
         run.violation("phonopy.units.VaspToTHz", "unit-factor", "VaspToTHz = %r, expected 15.633302" % factor, dict(value=factor))
-    norac = 500 if thorough else 60
+    norac = 800 if thorough else 90
     allnames = list(gen.PROTOTYPES)
     cand_smats = [np.diag(d) for d in ((2, 2, 2), (3, 3, 3), (2, 2, 3), (3, 2, 2), (2, 3, 2), (4, 4, 4), (3, 3, 2))] + [
         np.array(m) for m in ([[2, 1, 0], [0, 2, 0], [0, 0, 2]], [[2, 0, 1], [-1, 2, 0], [0, 1, 2]], [[-1, 1, 1], [1, -1, 1], [1, 1, -1]],
@@ -292,7 +330,7 @@ def main(run):
         det = int(round(np.linalg.det(smat)))
         if det < 1 or len(cell) * det > max_ns_o:
             continue
-        pm = cen if rng.random() < 0.75 else "auto"
+        pm, pmlabel = U.pick_pmat(rng, cen)
         dense = rng.random() < 0.75
         try:
             ph = Phonopy(cell, supercell_matrix=smat, primitive_matrix=pm, log_level=0, store_dense_svecs=dense)
@@ -323,7 +361,7 @@ def main(run):
             qs.append(("outside-first-zone", np.linalg.inv(M) @ nvec + np.array([rng.randint(1, 2), rng.randint(-2, 2), 0.0])))
         qarr = np.array([x[1] for x in qs])
         D = U.fourier_dynmat(pc.cell, pc.scaled_positions, pc.numbers, pc.masses, kfun, cutoff, qarr)
-        info = dict(cell=name, smat=smat.tolist(), pmat=pm, dense_svecs=dense, clause=clause, cutoff=float(cutoff),
+        info = dict(cell=name, smat=smat.tolist(), pmat=pmlabel, dense_svecs=dense, clause=clause, cutoff=float(cutoff),
                     half_min_supercell_vector=float(minv / 2), nn=float(nn), kfun=kdesc,
                     masses=list(map(float, pc.masses)), n_satom=len(sc), n_patom=len(pc))
         # size of one pair force constant at the nearest-neighbour distance: the natural scale of the entries even
@@ -363,6 +401,11 @@ def main(run):
                                       "run_qpoints dynamical matrix differs from the lattice Fourier sum by %.3g" % d,
                                       dict(info, q=list(map(float, qq)), layout=layout, variant=variant))
                     f = qd["frequencies"][n]
+                    if variant == "omp" and layout == "full" and len(freq_lines) < (200 if thorough else 40):
+                        ev = np.array(ph.qpoints.eigenvalues[n], dtype="double")
+                        freq_lines.append("freq %s %d %s" % (U.Q(factor), len(ev), " ".join(
+                            "%s %s" % (U.Q(float(x)), U.Q(float(np.sqrt(np.abs(x))))) for x in ev)))
+                        freq_meta.append((f.copy(), ev, dict(info, q=list(map(float, qq)))))
                     lam = np.sign(f) * (f / factor) ** 2
                     want = np.linalg.eigvalsh((ref + ref.conj().T) / 2)
                     sc_ = max(float(np.abs(want).max()), floor)
@@ -379,7 +422,7 @@ def main(run):
                         run.count("oracle cell=%s" % info["cell"])
                         run.count("oracle clause=%s" % clause)
                         run.count("oracle q=%s" % kind)
-                        run.count("oracle pmat=%s" % info["pmat"])
+                        run.count("oracle pmat=%s" % (info["pmat"] if "*" not in info["pmat"] else "explicit(centring*unimodular)"))
                         run.count("oracle svecs=%s" % ("dense" if info["dense_svecs"] else "sparse"))
                         sm = np.array(info["smat"])
                         run.count("oracle smat=%s" % ("diagonal" if (sm == np.diag(np.diag(sm))).all() else "non-diagonal"))
@@ -388,3 +431,17 @@ def main(run):
     common.switch_variant("ser")
     oracle_pass("ser")
     common.switch_variant("omp")
+
+    # frequency formula: model `frequency` (sqrt values as used by the code) vs QpointsPhonon
+    if freq_lines:
+        from fractions import Fraction
+        out = common.lean_run_driver("C02", freq_lines)
+        for (f, ev, inf), line in zip(freq_meta, out):
+            run.count("frequency-formula", section="correspondence")
+            if line == "bad-op":
+                run.broke("correspondence", "model rejected a frequency request", inf)
+                continue
+            mf = np.array([float(Fraction(t)) for t in line.split()])
+            if np.abs(mf - f).max() > 1e-12 * max(1.0, float(np.abs(f).max())) or ((f < 0) != (ev < 0)).any():
+                run.broke("correspondence", "frequencies differ from sign(l)*sqrt|l|*factor of the stored eigenvalues by %.3g"
+                          % np.abs(mf - f).max(), inf)
